@@ -10,6 +10,7 @@ import (
 	"io"
 	"reflect"
 	"strings"
+	"sync"
 	"unsafe"
 
 	"github.com/bronlabs/bron-crypto/pkg/base/datastructures/hashset"
@@ -155,11 +156,14 @@ func opDom(s []byte) string { return "D," + vh.Hex(s) }
 // harness can re-derive the prover's nonces (by replaying the same bytes through the
 // library's own sampler) and tell the model.
 type recReader struct {
+	mu  sync.Mutex
 	r   io.Reader
 	buf []byte
 }
 
 func (r *recReader) Read(p []byte) (int, error) {
+	r.mu.Lock()
+	defer r.mu.Unlock()
 	n, err := r.r.Read(p)
 	r.buf = append(r.buf, p[:n]...)
 	return n, err
